@@ -7,3 +7,10 @@ NOT_APPLICABLE = {}
 reg("C09", "stategraph", "model_checking", "explicit-state BFS to closure on the real buffers vs deque reference",
     "All reachable canonical states (cursor,size,ages) of ReplayBuffer/MultiAgentReplayBuffer for small capacities and every observation kind are explored to closure; every transition is executed on the real buffer and compared with a deque(maxlen=N) reference, so any cursor/width/wrap combination that loses, duplicates or mixes transitions is found.",
     "bounded capacity (<=5 quick, <=8 thorough), float32 CPU tensors; behaviour assumed independent of absolute serial numbers (age canonicalisation)", "B/C09")
+
+reg("C10", "stategraph", "model_checking", "explicit-state BFS over all done-vector streams on the real n-step + 1-step buffers vs episode-aware reference",
+    "Every stream of done vectors up to the stated length (closure of the canonical state graph for small capacities) is fed to the real MultiStepReplayBuffer with a 1-step buffer alongside; each stored row is decoded (rewards are powers of two, so the sum names the summed steps) and must be an admissible episode-respecting n-step transition aligned with the 1-step row.",
+    "n<=3/4, envs<=2/3, gamma in {1,0.5,(0.99)}, capacity in {3,(4),64}; CPU float32", "B/C10")
+reg("C11", "stategraph", "model_checking", "explicit-state BFS over add/update_priorities with per-state exhaustive scripted stratified draws",
+    "From the empty, full and wrapped buffer every add/update sequence up to the stated depth (closure for capacity<=2) is executed on the real PrioritizedReplayBuffer; in each new state tree invariants, the retrieval function at all breakpoints and sample() for every batch size and every scripted stratum draw (ends included) are compared with a direct computation over the stored priorities.",
+    "capacity<=5/7, priorities from a 6-value menu (1e-9..1e6), draws {0,2^-24,0.5,1-2^-24}; tolerance 8 ulp of total mass at breakpoints", "B/C11")
